@@ -221,17 +221,21 @@ def task(cases):
             dep_in = differs(call(copy.deepcopy(pre), x * 1.5 + 0.3, c, 5 + kl), y0)
             dep_ctx = differs(call(copy.deepcopy(pre), x, c * 1.5 + 0.3, 5 + kl), y0) if c is not None else False
             want = case["val"]
+            # with ReLU a small random network can have every unit on some path dead: an influence the specification
+            # predicts may then be unmeasurable (seen: 4 of 3024 passes); only an influence that should NOT exist is
+            # reported under ReLU, the tanh passes carry the other direction
+            dead_ok = act is F.relu
             if mode == "eval" and coupled:
                 out["fails"].append(dict(ident, prop="C12", clause="rows_coupled_in_eval", detail="%s in evaluation mode: changing the other rows of the batch changes row 0 of the output" % type(net).__name__))
-            elif coupled != want["coupled"]:
+            elif coupled != want["coupled"] and not (dead_ok and not coupled):
                 out["drift"].append("%s: rows coupled %s, specification %s" % (ident, coupled, want["coupled"]))
             if mode == "eval" and rnd:
                 out["fails"].append(dict(ident, prop="C13", clause="random_in_eval", detail="%s in evaluation mode: the output depends on the state of the random generator" % type(net).__name__))
-            elif rnd != want["random"]:
+            elif rnd != want["random"] and not (dead_ok and not rnd):
                 out["drift"].append("%s: depends on the generator %s, specification %s" % (ident, rnd, want["random"]))
-            if dep_in != want["in"]:
+            if dep_in != want["in"] and not (dead_ok and not dep_in):
                 out["drift"].append("%s: inputs reach the output %s, specification %s" % (ident, dep_in, want["in"]))
-            if dep_ctx != want["ctx"]:
+            if dep_ctx != want["ctx"] and not (dead_ok and not dep_ctx):
                 out["drift"].append("%s: context reaches the output %s, specification %s" % (ident, dep_ctx, want["ctx"]))
         except T.MachineryError:
             raise
